@@ -221,12 +221,15 @@ def do_call(comp, obj, members, layout, pool, ids):
         X = rows[0].unsqueeze(0) if comp.name.startswith("Polar") or "Polar" in comp.name or "Demodulator" in comp.name or "Modulator" in comp.name else rows[0]
     else:  # 3-D
         X = torch.stack(rows).unsqueeze(0)
-    # the input tensor's form in turn: contiguous, a non-contiguous strided view of a larger buffer, a leaf that requires grad
+    # the input tensor's form in turn: contiguous, a non-contiguous strided view of a larger buffer, a leaf that requires grad, a dense transposed view
     _FORM[0] += 1
-    form = ("contiguous", "strided view", "requires_grad")[_FORM[0] % 3]
+    form = ("contiguous", "strided view", "requires_grad", "transposed view")[_FORM[0] % 4]
     if form == "strided view":
         from .core import noncontiguous
         X = noncontiguous(X)
+    elif form == "transposed view":
+        from .core import transposed_view
+        X = transposed_view(X)
     elif form == "requires_grad" and (X.is_floating_point() or X.is_complex()):
         X = X.clone().requires_grad_(True)
     before = X.detach().clone()
